@@ -181,6 +181,12 @@ def run_c20(rep, tier, seed):
     corpus.append((Hist("c4", "cfg mfs=20000 sync=none frag=1/8 dead=1099511627776 small=0 cache=256 pool=1",
                          [P(BIGK, b"a" * 10), ("put", b"k2", b"b" * 9000, "62*9000"), P(b"k3", b"c" * 10), P(b"k2", b"d" * 10), ("merge",), ("merge",)]),
                    dict(keys=[BIGK, b"k2", b"k3"], mfs=20000, sync="none")))
+    # the removal phase of a pass over many files: five keys, each set in one file and deleted in a later one (one entry per file);
+    # whichever removal fails, a file holding a tombstone must not have gone while the file holding the value it kills is still there
+    ks5 = [bytes([0x61 + i]) for i in range(5)]
+    corpus.append((Hist("c5", "cfg mfs=0 sync=none frag=0/1 dead=0 small=1099511627776 cache=256 pool=1",
+                         [P(k, b"v" + k) for k in ks5] + [("del", k) for k in ks5] + [("merge",), P(b"z", b"1")]),
+                   dict(keys=ks5 + [b"z"], mfs=0, sync="none")))
     ncorpus = len(corpus)
     wl = corpus + [gen_fault_workload(rng, i, tier) for i in range(nw)]
     # baselines: count physical calls
